@@ -374,7 +374,10 @@ func (b *c14Backend) Profiles(_ context.Context, req *StorageProfilesRequest) (*
 	full := req.SyncTime.IsZero()
 	b.full = full
 	b.syncs++
-	resp := &StorageProfilesResponse{SyncTime: VerifNow().UTC()}
+	// the backend's snapshot time is not the local time at which the answer has been applied (streaming takes
+	// time, clocks differ): it is the backend's time that the next incremental request must carry, also after
+	// a restart from the file cache
+	resp := &StorageProfilesResponse{SyncTime: VerifNow().UTC().Add(-1500 * time.Millisecond)}
 	pristine := &StorageProfilesResponse{SyncTime: resp.SyncTime}
 	for _, p := range c14Profs {
 		if !full && !b.dirty[p] {
@@ -424,6 +427,7 @@ type c14World struct {
 	queue   []c14Cleanup
 	probing bool
 	stored  *StorageProfilesResponse // response that was written to the cache file
+	nfull   int
 }
 
 func (w *c14World) newDB() {
@@ -571,7 +575,29 @@ func (w *c14World) do(s c14Step, ev *c14Event) bool {
 			}
 			w.now = w.now.Add(time.Minute)
 		}
-		if err := w.db.Refresh(ctx); err != nil {
+		// every fourth full sync finds the cache file's place taken by a non-empty directory: the file cannot
+		// be replaced, the refresh says so (the synchronised data are in memory all the same), and whatever
+		// that attempt left behind must not leak into the file written by the next successful sync
+		storeFails := false
+		if s.A == "FullSync" {
+			w.nfull++
+			storeFails = w.nfull%4 == 2
+		}
+		if storeFails {
+			_ = os.RemoveAll(w.path)
+			if err := os.MkdirAll(filepath.Join(w.path, "in-the-way"), 0o700); err != nil {
+				w.t.Fatal(err)
+			}
+		}
+		err := w.db.Refresh(ctx)
+		if storeFails {
+			_ = os.RemoveAll(w.path)
+			if err == nil || !strings.Contains(err.Error(), "saving cache") {
+				w.t.Fatalf("refresh with an unwritable cache file: %v", err)
+			}
+			err = nil
+		}
+		if err != nil {
 			w.t.Fatalf("refresh: %v", err)
 		}
 		if (s.A == "FullSync") != w.be.full {
@@ -584,6 +610,9 @@ func (w *c14World) do(s c14Step, ev *c14Event) bool {
 		}
 		if w.be.full {
 			w.stored = w.be.lastResp
+			if storeFails {
+				w.stored = nil // there is no cache file now
+			}
 		}
 	case "Restart":
 		if w.stored == nil {
